@@ -457,6 +457,9 @@ add("C02", "fixed", "escape:AttributeError@builtin/filters/array.py:uniq", "uniq
     "decimal.InvalidOperation out of dateutil; {% render name %} inside an extends chain with any truthy render value under that name: AttributeError while the chain's blocks are collected",
     [c02("{% block b %}{{ block | uniq }}{% endblock %}"), c02("{{ '111111111111111111111111111111hours' | date: '%Y' }}"), c02("{% extends 'base' %}{% block b %}{% render x %}{% endblock %}", {"x": "abc"})], "b720809")
 
+add("C05", "fixed", "raw-special:text-of-a-missing-value:debug", "with autoescape on and DebugUndefined, {% call nosuchmacro %} wrote the undefined's text (\"'nosuchmacro' is undefined\") straight to the buffer, raw quotes included",
+    [{"kind": "undefined-type", "undefined": "debug", "source": "{% call nosuchmacro %}", "data": V.enc({}), "async": False}], "8abc37c")
+
 if __name__ == "__main__":
     # further entries are appended by tools/mkfindings.py from triaged replay files and kept in findings_extra.json
     extra_path = os.path.join(VERIF, "tools", "findings_extra.json")
